@@ -1229,6 +1229,13 @@ impl<'a> Tr<'a> {
                 _ => {}
             }
         }
+        // `NonZeroU8::get(self) -> u8` …: "returns the contained value as a primitive type"; a `NonZero*` value is read
+        // as that value (tr.rs `nonzero_int`), so this is the identity at the primitive type
+        if let Ty::Adt(n, a) = &rt {
+            if is_nonzero(n, a) && name == "get" && m.args.is_empty() {
+                return Ok(Out { pre: recv.pre, term: recv.term, ty: a[0].clone(), diverges: false });
+            }
+        }
         // integer methods
         let int_like = matches!(rt, Ty::Int(_)) || matches!(rt, Ty::Var(i) if self.sub.int_only[i]) || matches!(rt, Ty::Var(_));
         if int_like {
